@@ -184,9 +184,9 @@ def work(shard, tier):
         mod = mods[name]
         rng = C.rng_for('C17', name)
         listed = name in LISTED
-        base = C.corpus(name, limit=8 if tier == 'quick' else 60, rng=rng)
+        base = C.corpus(name, limit=8 if tier == 'quick' else 400, rng=rng)
         nums = []
-        for v in base + C.synth_valid(name, 6 if tier == 'quick' else 60, rng, base=base):
+        for v in base + C.synth_valid(name, 6 if tier == 'quick' else 400, rng, base=base):
             o = C.outcome(mod.validate, v)
             if o[0] == 'ok' and isinstance(o[1], str) and o[1] and o[1] not in nums:
                 nums.append(o[1])
